@@ -577,6 +577,48 @@ def gen_multichan_pattern(rng):
     return {'tmpls': tmpls, 'progs': progs, 'comps': comps, 'ops': ops}
 
 
+def gen_exc_handler_pattern(rng):
+    """handlers of the `exception` event that raise themselves (seed C04-g): "exactly one exception event per raising
+    handler" also holds for a handler of an `exception` event - its failure is announced by a further `exception` event
+    whose fevent is the first one.  To keep the program finite the raising handler of `exception` removes itself first
+    (or there are k of them, each removing itself), so the chain of exception events has length k + 1."""
+    r = rng
+    tmpls = [{'name': '1', 'flags': r.choice(['', 'f', 's', 'sf']), 'sc': None, 'cc': None},
+             {'name': '2', 'flags': '', 'sc': None, 'cc': None}]
+    progs = []
+    handlers = []
+
+    def add(names, prog, prio=0):
+        progs.append(prog)
+        handlers.append({'names': names, 'chan': None, 'prio': prio, 'prog': len(progs) - 1, 'installed': True})
+
+    kind = r.choice(['plain', 'plain', 'gen', 'base'])
+    if kind == 'plain':
+        add(['1'], [['raise']])
+    elif kind == 'base':
+        add(['1'], [['raise', 1]])
+    else:
+        add(['1'], [['yld', None]] * r.randint(1, 2) + [['raise']])
+    if r.random() < 0.4:
+        add(['1'], [['ret', r.choice([0, 3])]], r.choice([-1, 1]))
+    k = r.randint(1, 3)
+    for _ in range(k):
+        hid = len(handlers)
+        body = [['rmH', hid, None]]
+        if r.random() < 0.3:
+            body.append(['fire', 1, None, 0, False])
+        body.append(['raise', 1] if r.random() < 0.25 else ['raise'])
+        add(['906'], body, r.choice([0, 0, 1, -1]))
+    if r.random() < 0.5:
+        add(['906'], [['ret', 7]] if r.random() < 0.5 else [], r.choice([0, 2, -2]))
+    add(['2'], [])
+    comps = [{'chan': '*', 'handlers': handlers, 'timer': None}]
+    ops = [['do', 0, ['fire', 0, None, 0, False]], ['quiesce', 0]]
+    if r.random() < 0.5:
+        ops += [['do', 0, ['fire', 0, None, 0, False]], ['quiesce', 0]]
+    return {'tmpls': tmpls, 'progs': progs, 'comps': comps, 'ops': ops}
+
+
 def gen_stop_pattern(rng):
     """every way of stopping a run() x every kind of place it can be raised from: stop()/stop(code)/SystemExit/
     SystemExit(code)/KeyboardInterrupt in the `started` handler, in a plain handler, in the 1st/2nd/3rd step of a
